@@ -168,6 +168,80 @@ theorem no_overflow_partial (l : Lay) (vars : List Var)
   · have := sumLens_take_le (fixedVars vars) k; omega
   · have := sumLens_take_le (recVars vars) k; omega
 
+/-! ### the REPAIRED NC_begins (patch C18-begins-overflow.diff) satisfies the full claim -/
+
+/-- the additional rule the repaired code enforces: the data section (of one record) ends at an
+    offset representable in MPI_Offset -/
+def EndRule (l : Lay) (vars : List Var) : Prop := fileEnd l vars ≤ 9223372036854775807
+
+/-- repaired enddef: accepts exactly when the size rules, the CDF-1 begin rule and the end rule hold;
+    otherwise NC_EVARSIZE -/
+theorem accept_iff_rules_repaired (fmt : Nat) (l : Lay) (vars : List Var) (hf : fmt = 1 ∨ fmt = 2 ∨ fmt = 5)
+    (hw : ∀ v ∈ vars, WF v) (h4 : l.beginVar % 4 = 0) (hb : l.beginVar ≤ 9223372036854775807) :
+    ((enddefG fmt l vars).1 = NC_NOERR ↔ SizeRules fmt vars ∧ BeginRule fmt l vars ∧ EndRule l vars) ∧
+    ((enddefG fmt l vars).1 = NC_NOERR ∨ (enddefG fmt l vars).1 = NC_EVARSIZE) := by
+  have hne : ¬ (NC_EVARSIZE = NC_NOERR) := by decide
+  obtain ⟨hiff, hcodes⟩ := checkVlens_iff fmt vars hf hw
+  have hbn := ncBeginsG_none_iff fmt l vars h4 hb
+  have hbr := beginRule_iff fmt l vars
+  have hend : EndRule l vars ↔ ¬ recSection l vars + sumLens (recVars vars) > NC_MAX_INT64 := by
+    unfold EndRule fileEnd NC_MAX_INT64; omega
+  unfold enddefG
+  by_cases hc : checkVlens fmt vars = NC_NOERR
+  · simp only [hc, ne_eq, not_true_eq_false, if_false]
+    have hsr := hiff.mp hc
+    cases hn : ncBeginsG fmt l vars with
+    | none =>
+      simp only [hne, false_iff, or_true, and_true]
+      intro ⟨_, h2, h3⟩
+      rcases hbn.mp hn with h | h
+      · exact (hbr.mp h2) h
+      · exact (hend.mp h3) h
+    | some b =>
+      have hnn : ¬ ((fmt = 1 ∧ (RunExceeds NC_MAX_INT l.beginVar (fixedVars vars) ∨
+          RunExceeds NC_MAX_INT (recSection l vars) (recVars vars))) ∨
+          recSection l vars + sumLens (recVars vars) > NC_MAX_INT64) := by
+        intro h; rw [hbn.mpr h] at hn; cases hn
+      simp only [true_iff, true_or, and_true]
+      exact ⟨hsr, hbr.mpr (fun h => hnn (Or.inl h)), hend.mpr (fun h => hnn (Or.inr h))⟩
+  · have he : checkVlens fmt vars = NC_EVARSIZE := by rcases hcodes with h | h; exact absurd h hc; exact h
+    simp only [he, ne_eq, hne, not_false_eq_true, if_true, false_iff, or_true, and_true]
+    intro ⟨h, _⟩; rw [hiff.mpr h] at he; exact hne he.symm
+
+/-- repaired code: **every definition it accepts has all offsets below 2^63** — the statement that
+    is false of the original code (`no_overflow_counterexample`) holds without extra hypothesis -/
+theorem no_overflow_repaired (fmt : Nat) (l : Lay) (vars : List Var) (hf : fmt = 1 ∨ fmt = 2 ∨ fmt = 5)
+    (hw : ∀ v ∈ vars, WF v) (h4 : l.beginVar % 4 = 0) (hb : l.beginVar ≤ 9223372036854775807)
+    (hacc : (enddefG fmt l vars).1 = NC_NOERR) :
+    fileEnd l vars < 9223372036854775808 ∧
+    (∀ k, l.beginVar + sumLens ((fixedVars vars).take k) < 9223372036854775808) ∧
+    (∀ k, recSection l vars + sumLens ((recVars vars).take k) < 9223372036854775808) := by
+  have h := ((accept_iff_rules_repaired fmt l vars hf hw h4 hb).1.mp hacc).2.2
+  unfold EndRule at h
+  have hlt : fileEnd l vars < 9223372036854775808 := by omega
+  exact ⟨hlt, (no_overflow_partial l vars hlt).1, (no_overflow_partial l vars hlt).2.1⟩
+
+/-- repaired code assigns the same (specified) begins as the original whenever it accepts -/
+theorem begins_spec_repaired (fmt : Nat) (l : Lay) (vars : List Var) (h4 : l.beginVar % 4 = 0)
+    (hb : l.beginVar ≤ 9223372036854775807) (b : Begins) (h : (enddefG fmt l vars).2 = some b) :
+    b.fixed = (List.range (fixedVars vars).length).map (fixedBegin l vars) ∧
+    b.recs = (List.range (recVars vars).length).map (recBegin l vars) ∧
+    b.beginRec = recSection l vars := by
+  unfold enddefG at h
+  by_cases hc : checkVlens fmt vars = NC_NOERR
+  · simp only [hc, ne_eq, not_true_eq_false, if_false] at h
+    cases hn : ncBeginsG fmt l vars with
+    | none => simp [hn] at h
+    | some b' =>
+      simp only [hn, Option.some.injEq] at h
+      subst h
+      exact ncBeginsG_some fmt l vars h4 hb b' hn
+  · simp [hc] at h
+
+/-- the witness of the finding is rejected by the repaired code, a definition that fits is not -/
+example : (enddefG 5 ovfLay ovfVars).1 = NC_EVARSIZE := by decide
+example : (enddefG 5 ovfLay (ovfVars.take 1)).1 = NC_NOERR := by decide
+
 /-- the vsize field written for CDF-1/2 always fits 32 bits; it is the exact size up to 2^32-4 and
     the conventional 2^32-1 above -/
 theorem vsize_field_ok (fmt len : Nat) (hf : fmt < 5) :
@@ -215,6 +289,7 @@ def obligations : List String := [
   "defdim_iff", "checkVlen_exact", "checkVlen_no_overflow", "defvar_iff", "check_vlens_iff_rules",
   "accept_iff_rules", "begins_spec", "cdf1_begins_fit",
   "ovf_accepted", "ovf_third_begin", "no_overflow_counterexample", "no_overflow_partial",
+  "accept_iff_rules_repaired", "no_overflow_repaired", "begins_spec_repaired",
   "vsize_field_ok", "large_offsets_correct"
 ]
 end PnVerif.Props.C18
